@@ -197,7 +197,10 @@ def extraction(ctx: Ctx, I: Interp, tag: SNew) -> None:
                   "the same pattern finds and removes the serialised scripts from the same text", EXT, f"findall {short(pf)} / sub {short(ps)}",
                   "the pattern used to find serialised dependencies differs from the one used to remove them (or the removal inserts text)")
         if isinstance(pf, str):
-            pats.add(pf)
+            ff, fs = _re_flags(fa[0], 2), _re_flags(su[0], 4)
+            ctx.check(ff == fs and ff is not None, "C13.extract", "findall and sub use the same regex flags", EXT, f"flags {ff} / {fs}",
+                      "the pattern is applied with different flags for finding and for removing")
+            pats.add((pf, ff or 0))
         # de-duplication: against the set of all earlier serialisations, append order kept
         el = rec.__dict__.get("element")
         start = rec.__dict__.get("body_effect_start", 0)
@@ -262,8 +265,8 @@ def extraction(ctx: Ctx, I: Interp, tag: SNew) -> None:
     ctx.min_count("extraction paths", n, 1)
     # .3 the pattern vs the rendered open tag
     want = open_tag_text(ctx, tag)
-    for pat in pats:
-        tree = sre_parse.parse(pat)
+    for pat, pflags in pats:
+        tree = sre_parse.parse(pat, pflags)
         lit = ""
         rest = list(tree)
         while rest and rest[0][0] == sre_c.LITERAL:
@@ -276,12 +279,27 @@ def extraction(ctx: Ctx, I: Interp, tag: SNew) -> None:
         tail = "".join(chr(x[1]) for x in rest[1:] if x[0] == sre_c.LITERAL)
         ctx.check(okg and tail == "</script>" and len(rest[1:]) == len(tail), "C13.pattern", "the body group is lazy and the terminator is the literal </script>", EXT,
                   f"pattern tail {tail!r} lazy={okg}", "the pattern's body group is greedy or its terminator is not '</script>': one match swallows several serialised scripts")
-        ctx.check(re.compile(pat).groups == 1, "C13.pattern", "the pattern has exactly one capturing group (the payload)", EXT, f"{re.compile(pat).groups} groups",
+        ctx.check(re.compile(pat, pflags).groups == 1, "C13.pattern", "the pattern has exactly one capturing group (the payload)", EXT, f"{re.compile(pat, pflags).groups} groups",
                   "the extraction pattern does not have exactly one capturing group: findall() / group(1) no longer yield the JSON payload")
         if okg:
-            body = re.compile(pat)
+            body = re.compile(pat, pflags)
             m = body.search(want + "a\nb\r\n</script>")
             ctx.check(m is not None and m.group(1) == "a\nb\r\n", "C13.pattern", "the body group matches across line breaks", EXT, "multi-line body", "a multi-line serialisation (indent=) is not extracted")
+
+
+def _re_flags(e: Any, pos: int) -> Any:
+    """The flags argument of an re.* call effect as an int (0 when absent), None when it is not a constant."""
+    kw = e.extra if isinstance(e.extra, dict) else {}
+    kw = kw.get("kwargs", kw) if isinstance(kw.get("kwargs", None), dict) else kw
+    fl = kw.get("flags", e.value[pos] if e.value and len(e.value) > pos else 0)
+    if isinstance(fl, bool):
+        return None
+    if isinstance(fl, int):
+        return int(fl)
+    nm = getattr(fl, "name", None) or getattr(fl, "qual", None)
+    if isinstance(nm, str) and hasattr(re, nm.split(".")[-1]) and isinstance(getattr(re, nm.split(".")[-1]), int):
+        return int(getattr(re, nm.split(".")[-1]))
+    return None
 
 
 def _fromkeys_of(base: Any, is_src: Any) -> bool:
@@ -327,7 +345,10 @@ def _dedup_by_fromkeys(ctx: Ctx, I: Interp, mk: Any, pats: set) -> int:
                   "the same pattern finds and removes the serialised scripts from the same text", EXT, f"findall {short(pf)} / sub {short(ps)}",
                   "the pattern used to find serialised dependencies differs from the one used to remove them (or the removal inserts text)")
         if isinstance(pf, str):
-            pats.add(pf)
+            ff, fs = _re_flags(fa[0], 2), _re_flags(su[0], 4)
+            ctx.check(ff == fs and ff is not None, "C13.extract", "findall and sub use the same regex flags", EXT, f"flags {ff} / {fs}",
+                      "the pattern is applied with different flags for finding and for removing")
+            pats.add((pf, ff or 0))
         v = l.value
         items = v.items if isinstance(v, SList) else list(v) if isinstance(v, tuple) else []
         deps = items[1] if len(items) == 2 else None
